@@ -29,6 +29,7 @@ META = dict(
 )
 META["text"] += ' (R6, N) read_cvrs_directory hands each of its options to the parameter of read_cvrs with the same name and concatenates the records of every export file in sorted order.'
 META["text"] += " R4 refutes grouping a candidate's marks with itertools.groupby over unsorted marks."
+META["text"] += " R4 also: the mark loop runs over the contest's marks themselves. R6: strict hand-over (the callee gets the caller's own include_groups / pool_groups)."
 
 SPEC_MARK = '''
 def spec(present, old, rank):
@@ -205,6 +206,11 @@ def run(chk):
         # grouping a candidate's marks with groupby collects *adjacent* marks only: a candidate whose marks are separated by
         # another candidate's is processed twice and the later group wins -- the result depends on the order of the marks
         detail["adjacent_grouping"] = [f"line {c_.lineno}: {norm(c_)[:80]}" for c_ in adj]
+    elif len(mloops) == 1 and isinstance(mloops[0].target, ast.Name) and not (
+            isinstance(mloops[0].iter, ast.Subscript) and isinstance(mloops[0].iter.slice, ast.Constant) and mloops[0].iter.slice.value == "Marks"):
+        # every mark of the contest is examined: the loop runs over con["Marks"] itself, not over a selection of it (whether a
+        # mark counts is decided mark by mark, by IsVote and enforce_rules alone)
+        detail["marks_iterated"] = norm(mloops[0].iter)[:100]
     elif len(mloops) == 1 and isinstance(mloops[0].target, ast.Name):
         ml = mloops[0]
         m = norm(ml.target)
